@@ -207,7 +207,11 @@ class ZeroWorld:
                     elif lhs["l"] in self.tracked_locals:
                         env[("l", lhs["l"])] = self.val(bi.T.of_rvalue(st["rv"], 0), env)
                     elif lhs["l"] in self.variant_locals:
-                        env[("v", lhs["l"])] = st["rv"].get("vname") if st["rv"]["k"] == "agg" else None
+                        if st["rv"]["k"] == "agg":
+                            env[("v", lhs["l"])] = st["rv"].get("vname")
+                        else:
+                            t_ = bi.T.of_rvalue(st["rv"], 0)
+                            env[("v", lhs["l"])] = t_[1][1] if t_[0] == "agg" and isinstance(t_[1], tuple) and len(t_[1]) == 2 else None
                     else:
                         # remember the kind of Poll-typed temporaries that are later moved into _0
                         kind = self.classify(bi.T.of_rvalue(st["rv"], 0))[0]
